@@ -117,6 +117,22 @@ def trace_check(data):
         return f"traced program differs from untraced: {got_src!r} vs {want_src!r}"
     if p2.dumps() != before:
         return "tracing changed the serialised bytes"
+    # opcodes after the first STOP (appended to the object after loading) are never executed, by
+    # whichever entry point
+    try:
+        from fickling import fickle as F
+
+        p5 = Pickled.load(data)
+        p5.extend([F.Global.create("os", "getpid"), F.EmptyTuple(), F.Reduce(), F.Stop()])
+        plain5 = ast.unparse(p5.ast)
+        with contextlib.redirect_stdout(io.StringIO()):
+            traced5 = ast.unparse(Trace(Interpreter(p5)).run())
+        run5 = ast.unparse(Interpreter(p5).to_ast())
+    except Exception:  # noqa: BLE001
+        plain5 = traced5 = run5 = None
+    if plain5 is not None and not (plain5 == traced5 == run5 == want_src):
+        return (f"with further opcodes appended after STOP, Pickled.ast gives {plain5!r}, Interpreter.to_ast {run5!r}, "
+                f"Trace.run {traced5!r}; without them the program is {want_src!r}")
     # a trace taken over from an interpreter that has already been stepped k times reports the
     # remaining opcodes, once, in order, and still returns the same program
     n = len(want_names)
@@ -323,7 +339,7 @@ def run_shard(spec, seed):
         )
     elif spec["kind"] == "random":
         # every other shard also draws the protocol-5 out-of-band buffer opcodes
-        prof = asm.full_profile(vocab.ASM_GLOBS, buffers=spec["idx"] % 2 == 1)
+        prof = asm.full_profile(vocab.ASM_GLOBS, buffers=spec["idx"] % 2 == 1, list_ops_on_obj=spec["idx"] % 4 >= 2)
 
         def body(prog):
             f = check_bytes(prog.data)
